@@ -53,6 +53,8 @@ func VerifH_C02_fontread() {
 	width := verifParam("window", 2)
 	stride := verifParam("stride", 2)
 	f := verifIslandFont16()
+	// 'H' and 'x' feed the cap-height / x-height fall-backs of the reader (the font leaves both heights at 0)
+	f.CMapTable = verifCmap12([]rune{'A', 'B', 'H', 'f', 'x'}, []glyph.ID{1, 2, 1, 4, 4})
 	w := &bytes.Buffer{}
 	_, err := f.Write(w)
 	verifAssume(err == nil)
@@ -78,6 +80,17 @@ func VerifH_C02_fontread() {
 			excl = append(excl, [2]int{off + 18, off + 22})
 		case "post": // italic angle (trigonometric caret slope when re-encoding)
 			excl = append(excl, [2]int{off + 4, off + 8})
+		case "GSUB", "GPOS": // script and language tags (x/text language.Parse runs natively on concrete tags only)
+			u16 := func(p int) int { return int(data[p])<<8 | int(data[p+1]) }
+			sl := off + u16(off+4)
+			for i, n := 0, u16(sl); i < n; i++ {
+				rec := sl + 2 + 6*i
+				excl = append(excl, [2]int{rec, rec + 4})
+				st := sl + u16(rec+4)
+				for j, m := 0, u16(st+2); j < m; j++ {
+					excl = append(excl, [2]int{st + 4 + 6*j, st + 8 + 6*j})
+				}
+			}
 		case "name": // string storage (regular expressions over family name and version string)
 			so := int(data[off+4])<<8 | int(data[off+5])
 			excl = append(excl, [2]int{off + so, off + ln})
@@ -92,6 +105,7 @@ func VerifH_C02_fontread() {
 	for i := 0; i < width; i++ {
 		data[pos+i] = verifU8("b")
 	}
+	verifLoopCut(verifParam("loopcut", 12))
 	g, err := Read(bytes.NewReader(data))
 	if err != nil {
 		verifReach("rejected")
